@@ -23,11 +23,14 @@ pub struct Case {
     /// explicit hidden positions (overrides hidden_mask; for attribute counts above 8)
     #[serde(default)]
     pub hidden_list: Vec<usize>,
+    /// all hidden attributes carry the same value (the value of the first hidden one)
+    #[serde(default)]
+    pub eq_hidden: bool,
 }
 
 fn strat(nmax: usize, leaf_edits: usize) -> impl Strategy<Value = Case> {
     (any::<u16>(), 1usize..=nmax, any::<u8>(), prop::collection::vec(0u8..6, 5), prop::bool::weighted(0.25), any::<u32>())
-        .prop_map(move |(key, n, hm, classes, via_blind, seed)| Case { key, n, hidden_mask: hm & ((1u8 << n) - 1), classes, via_blind, seed, leaf_edits, hidden_list: vec![] })
+        .prop_map(move |(key, n, hm, classes, via_blind, seed)| Case { key, n, hidden_mask: hm & ((1u8 << n) - 1), classes, via_blind, seed, leaf_edits, hidden_list: vec![], eq_hidden: false })
 }
 
 pub struct Honest<CS: CLCiphersuite> {
@@ -95,6 +98,14 @@ where
     let cj = |d: Value| json!({"case": c, "key": key.id, "hidden": hidden, "detail": d});
     let mut st = (c.seed as u64) << 6 | 1;
     let vals: Vec<Integer> = (0..n).map(|i| attr(c.classes[i % c.classes.len()], &mut st)).collect();
+    let mut vals = vals;
+    if c.eq_hidden && hidden.len() >= 2 {
+        let first = vals[hidden[0]].clone();
+        for &i in &hidden[1..] {
+            vals[i] = first.clone();
+        }
+        rep.class("equal-hidden-values");
+    }
     let h = match honest::<CS>(key, n, &hidden, vals.clone(), c.via_blind) {
         Ok(h) => h,
         Err(e) => return rep.fail(ck, "honest-generation-failed", format!("hidden {:?} of {}: {}", hidden, n, e), cj(json!(null))),
@@ -330,7 +341,7 @@ pub fn run(ctx: &Ctx, rep: &Report) -> Meta {
     for n in 1..=nmax {
         for mask in 0u8..(1 << n) {
             k += 1;
-            fixed.push(Case { key: (k * 9973) as u16, n, hidden_mask: mask, classes: vec![5, 4, (k % 6) as u8, 5, 5], via_blind: k % 4 == 0, seed: (ctx.seed as u32).wrapping_add(k), leaf_edits: ctx.tier.pick(24, 0), hidden_list: vec![] });
+            fixed.push(Case { key: (k * 9973) as u16, n, hidden_mask: mask, classes: vec![5, 4, (k % 6) as u8, 5, 5], via_blind: k % 4 == 0, seed: (ctx.seed as u32).wrapping_add(k), leaf_edits: ctx.tier.pick(24, 0), hidden_list: vec![], eq_hidden: mask.count_ones() >= 2 && k % 2 == 1 });
         }
     }
     for n in [6usize, 8] {
@@ -351,9 +362,46 @@ pub fn run(ctx: &Ctx, rep: &Report) -> Meta {
     let le = ctx.tier.pick(40usize, 120usize);
     // every attribute count 9..=24 (quick) / 9..=48 (thorough) with two or three hidden positions including the last
     let sweep: Vec<Case> = (9..=ctx.tier.pick(24usize, 48usize))
-        .map(|n| Case { key: (n * 131) as u16, n, hidden_mask: 0, classes: vec![5, 4, (n % 6) as u8, 5, 5], via_blind: n % 5 == 0, seed: (ctx.seed as u32).wrapping_add(7000 + n as u32), leaf_edits: 8, hidden_list: if n % 2 == 0 { vec![0, n - 1] } else { vec![1, n / 2, n - 1] } })
+        .map(|n| Case { key: (n * 131) as u16, n, hidden_mask: 0, classes: vec![5, 4, (n % 6) as u8, 5, 5], via_blind: n % 5 == 0, seed: (ctx.seed as u32).wrapping_add(7000 + n as u32), leaf_edits: 8, hidden_list: if n % 2 == 0 { vec![0, n - 1] } else { vec![1, n / 2, n - 1] }, eq_hidden: n % 4 == 1 })
         .collect();
     par_items(ctx, rep, "attribute-count-sweep", &sweep, |c| with_cl!(suite, CS => check_one::<CS>(rep, "attribute-count-sweep", c, &keys)));
+    // volume: many honest proofs of the cheapest shapes (one attribute revealed; one of two hidden), each verified.
+    // A verifier or prover that mishandles a value occurring once in a few hundred proofs (a challenge or response
+    // with a leading zero octet, a carry) refuses an honest proof only then
+    {
+        let total = ctx.tier.pick(1400usize, 12000usize);
+        let per = total / 16;
+        let ws: Vec<usize> = (0..16).collect();
+        par_items(ctx, rep, "volume", &ws, |&w| {
+            with_cl!(suite, CS => {
+                let key = &keys[w % keys.len()];
+                let pk = &key.pk;
+                let mut st = ctx.seed ^ ((w as u64) << 32) | 5;
+                for shape in 0..2usize {
+                    let (n, hidden): (usize, Vec<usize>) = if shape == 0 { (1, vec![]) } else { (2, vec![1]) };
+                    let vals: Vec<Integer> = (0..n).map(|_| attr_random(&mut st)).collect();
+                    let h = honest::<CS>(key, n, &hidden, vals, false).map_err(|e| Fail { check: "volume".into(), site: "honest-generation-failed".into(), msg: e, case: json!({"worker": w}) })?;
+                    let count = if shape == 0 { per * 4 / 5 } else { per / 5 };
+                    for k in 0..count {
+                        if rep.aborted() {
+                            return Ok(());
+                        }
+                        let p = match catch(|| PoKSignature::<CL03<CS>>::proof_gen(h.sig.cl03Signature(), &h.cpk, pk, &h.bases, &h.msgs, &hidden)) {
+                            Ok(p) => p,
+                            Err(e) => return rep.fail("volume", "honest-generation-failed", format!("proof_gen #{}: {}", k, e), json!({"worker": w, "shape": shape})),
+                        };
+                        rep.eval("volume", 1);
+                        if !catch(|| p.proof_verify(&h.cpk, pk, &h.bases, &h.revealed, &hidden, n)).unwrap_or(false) {
+                            return rep.fail("volume", "honest-signature-proof-rejected", format!("honest proof #{} of worker {} (n = {}, hidden {:?}) is refused; proof: {}", k, w, n, hidden, truncate(&serde_json::to_string(&p).unwrap_or_default(), 400)), json!({"volume": {"pk": serde_json::to_value(pk).unwrap_or(json!(null)), "cpk": serde_json::to_value(&h.cpk).unwrap_or(json!(null)), "bases": serde_json::to_value(&h.bases).unwrap_or(json!(null)),
+                                "revealed": serde_json::to_value(&h.revealed).unwrap_or(json!(null)), "hidden": hidden, "n": n, "proof": serde_json::to_value(&p).unwrap_or(json!(null))}}));
+                        }
+                    }
+                }
+                rep.nontrivial("volume", &json!({"worker": w}));
+                Ok(())
+            })
+        });
+    }
     run_cases(ctx, rep, "presentations", ctx.tier.pick(32, 300), 30, || strat(nmax.max(4), le), |c| with_cl!(suite, CS => check_one::<CS>(rep, "presentations", c, &keys)));
     if ctx.tier == Tier::Thorough && !rep.aborted() {
         for (s2, nfix) in [(ClSuite::CL2048, 3usize), (ClSuite::CL3072, 2)] {
@@ -369,13 +417,25 @@ pub fn run(ctx: &Ctx, rep: &Report) -> Meta {
         rule: "signer key from a pool, n attributes, EVERY hidden set (none ... all) for n = 1..3 (quick) / 1..5 (thorough) plus generated cases, signatures issued directly and through blind issuance, commitment key over the issuer modulus; \
                positive: proof_verify true with the revealed attributes in index order, proof survives JSON; negative: every revealed attribute changed, swaps, other signer key (also b or c alone changed), other bases, other commitment key, \
                another hidden set of the same size, n+1 / n-1 (also n+1 and n+3 against key material with spare bases and the true revealed list), range_proof_e replaced by an honest range proof for another commitment, every composite node of the serialised proof replaced by the node at the same path of a second honest proof for other hidden values (same key, bases, commitment key, positions; every second case), and integer leaves of the serialised proof perturbed by +1, -1, := 0, := sibling, one high bit flipped, +2^k for k in {128, 160, 256, 300} \
-               (24-40 sampled perturbations per proof in quick, every leaf in thorough's fixed list); hidden-position list extended by positions >= n (appended, prepended) and by a revealed position, an honest range proof for another value transplanted onto Ce, n = 6 and 8, every attribute count 9..=24 (quick) / 9..=48 (thorough) with two or three hidden positions including the last; after the negative families the honest proof and a freshly generated one verify again on the same thread; a refusal by panic counts as not verifying; non-trivial = (n, U) != (3, {0}); evaluations = verifier decisions"
+               (24-40 sampled perturbations per proof in quick, every leaf in thorough's fixed list); hidden-position list extended by positions >= n (appended, prepended) and by a revealed position, an honest range proof for another value transplanted onto Ce, n = 6 and 8, volume: 1400 (quick) / 12000 (thorough) honest proofs of the cheapest shapes each verified, every attribute count 9..=24 (quick) / 9..=48 (thorough) with two or three hidden positions including the last; after the negative families the honest proof and a freshly generated one verify again on the same thread; a refusal by panic counts as not verifying; non-trivial = (n, U) != (3, {0}); evaluations = verifier decisions"
             .into(),
         assumptions: vec!["CL2048/CL3072 in thorough only (fixture primes)".into()],
     }
 }
 
 pub fn replay(ctx: &Ctx, rep: &Report, ck: &str, case: &Value) -> CheckResult {
+    if ck == "volume" {
+        let v = &case["volume"];
+        let perr = |m: &str| Fail { check: ck.into(), site: "replay-parse".into(), msg: m.into(), case: json!(null) };
+        let pk: CL03PublicKey = serde_json::from_value(v["pk"].clone()).map_err(|_| perr("pk"))?;
+        let cpk: CL03CommitmentPublicKey = serde_json::from_value(v["cpk"].clone()).map_err(|_| perr("cpk"))?;
+        let bases: Bases = serde_json::from_value(v["bases"].clone()).map_err(|_| perr("bases"))?;
+        let revealed: Vec<CL03Message> = serde_json::from_value(v["revealed"].clone()).map_err(|_| perr("revealed"))?;
+        let hidden: Vec<usize> = serde_json::from_value(v["hidden"].clone()).map_err(|_| perr("hidden"))?;
+        let n = v["n"].as_u64().ok_or_else(|| perr("n"))? as usize;
+        let p: PoKSignature<CL03<CL1024Sha256>> = serde_json::from_value(v["proof"].clone()).map_err(|_| perr("proof"))?;
+        return if catch(|| p.proof_verify(&cpk, &pk, &bases, &revealed, &hidden, n)).unwrap_or(false) { Ok(()) } else { Err(Fail { check: ck.into(), site: "honest-signature-proof-rejected".into(), msg: "the recorded honest proof is refused".into(), case: json!({"volume": "see file"}) }) };
+    }
     let c: Case = serde_json::from_value(case["case"].clone()).map_err(|e| Fail { check: ck.into(), site: "replay-parse".into(), msg: e.to_string(), case: case.clone() })?;
     let keys = key_pool(ClSuite::CL1024, 0, 3, ctx.seed);
     check_one::<CL1024Sha256>(rep, ck, &c, &keys)
